@@ -164,7 +164,9 @@ func hmExecSet(hm *HashMap, values []r.Element) (r.Element, error) {
 	}
 	// key name
 	keyName := values[0].(*String).value
-	hm.AppendKVPair(KVPair{keyName, values[1]})
+	// the dictionary holds a copy of the value (as `D#k = V` does): a
+	// dictionary can never come to contain itself
+	hm.AppendKVPair(KVPair{keyName, DuplicateValue(values[1])})
 	return values[1], nil
 }
 
